@@ -26,7 +26,7 @@ func vfReaderBacked(r *Snapshot, what string) {
 // item backing it stays open while it is held, and after everything is closed
 // each item loaded from the directory was released exactly once.
 //
-// vf:harness property=C04 cases=unsafe:0;order:0..1 cases.thorough=unsafe:0..1;order:0..2 sched=1 schedbudget=1 preempt=1 schedtotal=1 schedtotal.thorough=2 goinline=1 chanslack=8 deadlock=violation clock=zero maxpaths=400000 replay=model-only diff=off
+// vf:harness property=C04 cases=unsafe:0;order:0..1 cases.thorough=unsafe:0..1;order:1 sched=1 schedbudget=1 preempt=1 schedtotal=1 schedtotal.thorough=2 goinline=1 chanslack=8 deadlock=violation clock=zero maxpaths=400000 replay=model-only diff=off
 // vf:replace hash/crc32.Update vfChecksumUpdate
 // vf:replace io.CopyN vfCopyN
 // vf:replace (*github.com/RoaringBitmap/roaring.Bitmap).ReadFrom vfRoaringReadFrom
